@@ -28,6 +28,29 @@ struct c10_session : public vsim_session {
       cvm::clear_error();
       return true;
     }
+    if (cmd == "scriptv") {
+      // script command with verbatim arguments (they may contain blanks and double quotes): the rest of the line,
+      // split at '|'.  modifycvcs takes ONE argument holding double-quoted strings: scriptv cv|colvar|x|modifycvcs|"componentExp 2"
+      std::string rest;
+      for (size_t i = 0; i < a.size(); i++) rest += (i ? " " : "") + a[i];
+      std::vector<std::string> words;
+      size_t pos = 0;
+      while (true) {
+        size_t q = rest.find('|', pos);
+        words.push_back(rest.substr(pos, q == std::string::npos ? std::string::npos : q - pos));
+        if (q == std::string::npos) break;
+        pos = q + 1;
+      }
+      std::vector<unsigned char *> argv;
+      for (auto &w : words) argv.push_back((unsigned char *) w.c_str());
+      cvm::clear_error();
+      int err = run_colvarscript_command(argv.size(), argv.data());
+      std::string res = get_colvarscript_result();
+      std::replace(res.begin(), res.end(), '\n', ' ');
+      o << "SCRIPT err=" << (err == COLVARS_OK ? "ok" : "error") << " result=" << res.substr(0, 120) << "\n";
+      cvm::clear_error();
+      return true;
+    }
     if (cmd == "frame") {
       std::ifstream f(a[0].c_str());
       int k = atoi(a[1].c_str());
